@@ -32,7 +32,10 @@ def step (c impl : String) : String :=
       let slow := kv toks "slow"
       let big := kv toks "big"
       let internal := kv toks "internal"
-      if slow ≠ "" then specViol s!"slow: {slow} of a {kind} case took longer than the time bound (20 s; hostile input must be answered quickly)"
+      if slow ≠ "" && kind = "wide" then
+        specViol s!"hang: {slow} — 300 parents/usersets, the user is allowed through the first one, no deadline: the answer is known after the first sub-check but the request only returns when the caller's context ends"
+      else if kind = "wide" && internal ≠ "" then specViol s!"wide fan-out with an early hit was not answered `allowed`: {internal}"
+      else if slow ≠ "" then specViol s!"slow: {slow} of a {kind} case took longer than the time bound (20 s; hostile input must be answered quickly)"
       else if big ≠ "" then
         specViol (s!"memory: {big} of a {kind} case allocated more than 1.5 GB" ++
           (if (big.splitOn "WriteAuthorizationModel").length > 1 then
